@@ -76,6 +76,10 @@ type c32S3 struct {
 	gateComplete bool
 	atGate       chan struct{}
 	release      chan struct{}
+	// part gate: the next UploadPart announces itself on partAtGate and waits for partRelease
+	gatePart    bool
+	partAtGate  chan struct{}
+	partRelease chan struct{}
 }
 
 func newC32S3() *c32S3 {
@@ -167,6 +171,14 @@ func (f *c32S3) CreateMultipartUpload(ctx context.Context, in *s3.CreateMultipar
 }
 
 func (f *c32S3) UploadPart(ctx context.Context, in *s3.UploadPartInput, _ ...func(*s3.Options)) (*s3.UploadPartOutput, error) {
+	f.mu.Lock()
+	gate := f.gatePart
+	f.gatePart = false
+	f.mu.Unlock()
+	if gate {
+		close(f.partAtGate)
+		<-f.partRelease
+	}
 	f.mu.Lock()
 	defer f.mu.Unlock()
 	fl := f.begin("UploadPart")
@@ -838,18 +850,23 @@ func c32JSONReq(method, path string, v any) *http.Request {
 }
 
 type c32SessionPlan struct {
-	sizes      []int
-	stamps     [][16]byte
-	declDelta  int64
-	alg        string
-	ckKind     string
-	listKind   string
-	retryKind  string
-	faultOp    string
-	faultKind  string
-	broker     c32BrokerPlan
-	resend     bool
-	faultTimes int // how many consecutive calls the injected fault hits (0/1 = once)
+	sizes     []int
+	stamps    [][16]byte
+	declDelta int64
+	alg       string
+	ckKind    string
+	listKind  string
+	retryKind string
+	faultOp   string
+	faultKind string
+	broker    c32BrokerPlan
+	resend    bool
+	// overlapPart: PUT of part overlapPart (1-based) is repeated by the client (same bytes)
+	// while the first PUT is still in flight to S3 (client-side timeout + retry); 0 = never
+	overlapPart int
+	// declaredFactor: size_bytes = declaredFactor x the bytes actually sent (0/1 = exact)
+	declaredFactor int
+	faultTimes     int // how many consecutive calls the injected fault hits (0/1 = once)
 	// abortDuringComplete: DELETE /lfs/uploads/<id> arrives while the first completion is
 	// inside S3 CompleteMultipartUpload (a watchdog / second tab cancelling a slow upload)
 	abortDuringComplete bool
@@ -914,6 +931,9 @@ func c32RunSession(st *vfkit.Stats, br *c32Broker, p c32SessionPlan) (string, c3
 		total += int64(p.sizes[i])
 	}
 	declared := total + p.declDelta
+	if p.declaredFactor > 1 {
+		declared = total * int64(p.declaredFactor)
+	}
 	sample.Declared = declared
 	effAlg := strings.ToLower(strings.TrimSpace(p.alg))
 	if effAlg == "" {
@@ -964,11 +984,14 @@ func c32RunSession(st *vfkit.Stats, br *c32Broker, p c32SessionPlan) (string, c3
 		fs.faultTimes[p.faultOp] = p.faultTimes
 		partFaultArmed = true
 	}
+	var putMu sync.Mutex
 	putPart := func(n int, piece c32Piece) int {
 		req := httptest.NewRequest(http.MethodPut, fmt.Sprintf("%s/parts/%d", base, n), piece.reader())
 		req.ContentLength = int64(piece.size)
 		rr := httptest.NewRecorder()
 		m.handleHTTPUploadSession(rr, req)
+		putMu.Lock()
+		defer putMu.Unlock()
 		sample.Statuses = append(sample.Statuses, rr.Code)
 		if rr.Code == http.StatusOK {
 			var pr lfsUploadPartResponse
@@ -985,7 +1008,39 @@ func c32RunSession(st *vfkit.Stats, br *c32Broker, p c32SessionPlan) (string, c3
 		putPart(2, pieces[1]) // must be refused (409); the session continues
 	}
 	for i, piece := range pieces {
-		code := putPart(i+1, piece)
+		var code int
+		if p.overlapPart == i+1 {
+			// first PUT parks inside S3 UploadPart; the client's retry of the same part arrives
+			// meanwhile; then S3 answers. Statuses of both are recorded; the first one counts.
+			fs.mu.Lock()
+			fs.gatePart, fs.partAtGate, fs.partRelease = true, make(chan struct{}), make(chan struct{})
+			atGate, release := fs.partAtGate, fs.partRelease
+			fs.mu.Unlock()
+			first := make(chan int, 1)
+			go func() { first <- putPart(i+1, piece) }()
+			select {
+			case <-atGate:
+				second := make(chan int, 1)
+				started := make(chan struct{})
+				go func() { close(started); second <- putPart(i+1, piece) }()
+				<-started
+				time.Sleep(20 * time.Millisecond) // scheduling aid only; no verdict depends on it
+				close(release)
+				code = <-first
+				c2 := <-second
+				st.Class(fmt.Sprintf("overlapping-put-same-part:%d/%d", code, c2))
+				if code != http.StatusOK && c2 == http.StatusOK {
+					code = c2
+				}
+			case code = <-first:
+				fs.mu.Lock()
+				fs.gatePart = false
+				fs.mu.Unlock()
+				st.Class("overlapping-put-same-part:first-never-reached-S3")
+			}
+		} else {
+			code = putPart(i+1, piece)
+		}
 		if code == http.StatusBadGateway && partFaultArmed {
 			partFaultArmed = false
 			// a part upload that failed at S3 (injected) is retried once by the client, unless
@@ -1163,6 +1218,27 @@ func TestVF_C32_Session(t *testing.T) {
 			}
 			st.Class("s3-fault-kind:" + p.faultKind)
 		}
+		if rapid.IntRange(0, 5).Draw(t, "overlap") == 0 {
+			p.overlapPart = rapid.IntRange(1, nparts).Draw(t, "overlapPart")
+			st.Class("overlapping-put-same-part")
+		}
+		// declared sizes that are multiples of what is sent (k x part size): a session that
+		// double-counts a part would reach such a total
+		switch rapid.IntRange(0, 7).Draw(t, "declaredFactor") {
+		case 0:
+			p.declaredFactor = 2
+		case 1:
+			p.declaredFactor = 3
+		}
+		if p.overlapPart > 0 && rapid.Bool().Draw(t, "overlapDoubleShape") {
+			// the shape in which double counting would be invisible to the size check: one
+			// 5 MiB part, declared size 10 MiB
+			p.sizes, p.stamps, p.overlapPart, p.declaredFactor = []int{c32MiB5}, p.stamps[:1], 1, 2
+			p.listKind, p.retryKind, p.declDelta, p.faultOp = "full", "", 0, ""
+		}
+		if p.declaredFactor > 1 {
+			st.Class(fmt.Sprintf("declared=%dx-sent", p.declaredFactor))
+		}
 		p.abortDuringComplete = rapid.IntRange(0, 5).Draw(t, "abortDuringComplete") == 0
 		if p.abortDuringComplete {
 			st.Class("abort-during-complete")
@@ -1193,8 +1269,8 @@ func TestVF_C32_Session(t *testing.T) {
 		if viol != "" {
 			t.Fatalf("%s", viol)
 		}
-		if p.broker.Kind != "ack" || p.listKind != "full" || p.faultOp != "" || p.abortDuringComplete {
-			st.NonTrivial("session", p.sizes, p.declDelta, p.alg, p.ckKind, p.listKind, p.retryKind, p.faultOp, p.faultKind, p.broker.Kind, p.broker.Code, p.resend, p.outOfOrder, p.clientRetries, p.retryBroker != nil, p.faultTimes, p.abortDuringComplete)
+		if p.broker.Kind != "ack" || p.listKind != "full" || p.faultOp != "" || p.abortDuringComplete || p.overlapPart > 0 {
+			st.NonTrivial("session", p.sizes, p.declDelta, p.alg, p.ckKind, p.listKind, p.retryKind, p.faultOp, p.faultKind, p.broker.Kind, p.broker.Code, p.resend, p.outOfOrder, p.clientRetries, p.retryBroker != nil, p.faultTimes, p.abortDuringComplete, p.overlapPart, p.declaredFactor)
 			st.Sample(sample)
 		}
 	})
@@ -1235,6 +1311,23 @@ func TestVF_C32_RetryEnum(t *testing.T) {
 						st.Sample(sample)
 					}
 				}
+			}
+		}
+	}
+	// a client retry of PUT part N arriving while the first PUT of N is in flight to S3,
+	// for declared sizes 1x / 2x / 3x what is sent
+	for _, sizes := range [][]int{{c32MiB5}, {300}, {c32MiB5, 77}, {c32MiB5, c32MiB5}} {
+		for part := 1; part <= len(sizes); part++ {
+			for _, factor := range []int{1, 2, 3} {
+				st.Eval()
+				p := c32SessionPlan{sizes: sizes, stamps: [][16]byte{stampA, stampB}[:len(sizes)], ckKind: "absent", listKind: "full",
+					broker: ack, overlapPart: part, declaredFactor: factor, keyB64: "a2V5"}
+				viol, sample := c32RunSession(st, br, p)
+				if viol != "" {
+					t.Fatalf("%s\n(PUT of part %d was repeated while the first PUT was in flight to S3; declared size = %d x sent)", viol, part, factor)
+				}
+				st.NonTrivial("overlap", sizes, part, factor)
+				st.Sample(sample)
 			}
 		}
 	}
